@@ -414,6 +414,59 @@ fn make_hook(sched: &Arc<Sched>, name: &'static str, k: usize, is_async: bool) -
 
 /// `PoolBuilder::build()` with pool-level timeouts; also checks that a pool that was
 /// built reports the configured timeouts.
+/// One sequence of `PoolBuilder` configuration calls (tokens of the line protocol), built with
+/// a runtime; returns what the built pool reports.
+pub fn builder_row(calls: &[String]) -> String {
+    // (a manager with `Debug`, so that the built pool's queue mode can be read off its Debug output)
+    #[derive(Debug)]
+    struct DbgMgr;
+    impl Manager for DbgMgr {
+        type Type = u32;
+        type Error = ();
+        async fn create(&self) -> Result<u32, ()> {
+            Ok(0)
+        }
+        async fn recycle(&self, _: &mut u32, _: &Metrics) -> deadpool::managed::RecycleResult<()> {
+            Ok(())
+        }
+    }
+    let od = |x: &str| -> Option<Duration> { if x == "-" { None } else { Some(Duration::from_millis(x.parse().unwrap())) } };
+    let qm = |x: &str| if x == "l" { QueueMode::Lifo } else { QueueMode::Fifo };
+    let mut b = Pool::<DbgMgr>::builder(DbgMgr).runtime(Runtime::Tokio1);
+    for c in calls {
+        let (k, v) = c.split_once(':').unwrap();
+        b = match k {
+            "m" => b.max_size(v.parse().unwrap()),
+            "w" => b.wait_timeout(od(v)),
+            "c" => b.create_timeout(od(v)),
+            "r" => b.recycle_timeout(od(v)),
+            "q" => b.queue_mode(qm(v)),
+            "T" => {
+                let p: Vec<&str> = v.split(',').collect();
+                b.timeouts(Timeouts { wait: od(p[0]), create: od(p[1]), recycle: od(p[2]) })
+            }
+            _ => {
+                let p: Vec<&str> = v.split(',').collect();
+                b.config(PoolConfig {
+                    max_size: p[0].parse().unwrap(),
+                    timeouts: Timeouts { wait: od(p[1]), create: od(p[2]), recycle: od(p[3]) },
+                    queue_mode: qm(p[4]),
+                })
+            }
+        };
+    }
+    match b.build() {
+        Err(_) => "builder build-error".to_string(),
+        Ok(p) => {
+            let t = p.timeouts();
+            let sh = |d: Option<Duration>| d.map(|d| d.as_millis().to_string()).unwrap_or("-".into());
+            let dbg = format!("{:?}", p);
+            let q = if dbg.contains("queue_mode: Lifo") { "lifo" } else if dbg.contains("queue_mode: Fifo") { "fifo" } else { "unobserved" };
+            format!("builder max={} w={} c={} r={} qm={}", p.status().max_size, sh(t.wait), sh(t.create), sh(t.recycle), q)
+        }
+    }
+}
+
 pub fn try_build(w: Tmo, c: Tmo, r: Tmo, rt: bool) -> &'static str {
     let sched = Sched::new();
     let truth = Arc::new(Truth {
